@@ -7,6 +7,7 @@ From AGH Require Import Base.Run Base.Bytes Base.Dom Base.PathClean Model.Client
 From AGH Require Import Model.CertNames Proofs.CertNames.
 From AGH Require Import Model.ClientIDCache Proofs.ClientIDCache Model.ClientIDReconf Proofs.ClientIDReconf.
 From AGH Require Import Model.TLSSettings Proofs.TLSSettings.
+From AGH Require Import Model.GoLower Proofs.GoLower Model.CertPrepare Proofs.CertPrepare.
 Import ListNotations.
 
 (** A returned non-empty ClientID: the protocol is DoH, DoT or DoQ; the id is a
@@ -458,3 +459,107 @@ Theorem C16_tls_strict_lost_refuted :
     changed_of false m r = true.
 Proof. exact strict_lost_without_keep_refuted. Qed.
 Print Assumptions C16_tls_strict_lost_refuted.
+
+(** * Round 5: the label is validated as the client sent it; Go's
+    strings.ToLower is Unicode aware (Model/GoLower.v). *)
+
+(** A returned ClientID is the lower-casing of a label that was a valid
+    host-name label, pure ASCII, in the bytes the client sent (path element or
+    label in front of the configured name) -- for every byte string. *)
+Theorem C16_label_valid_as_sent : forall p host strict sni h id,
+  client_id_of p host strict sni h = CidOk id -> id <> [] ->
+  exists x, valid_label x /\ is_ascii x = true /\ id = go_to_lower x /\ id = lower x /\
+    ((p = DoH /\ exists r, h = Some r /\ path_id (d_path r) x) \/
+     (reaches_sni p h /\ host <> [] /\
+      exists cli, server_name_of p sni h = inr cli /\ immediate_sub cli host x)).
+Proof. exact label_valid_as_sent. Qed.
+Print Assumptions C16_label_valid_as_sent.
+
+(** unicode.ToLower over the whole case table: outside ASCII only U+212A
+    (Kelvin sign) and U+0130 have an ASCII lower case. *)
+Theorem C16_to_lower_ascii_image : forall r,
+  (rune_lower r < 128)%N -> (r < 128)%N \/ r = kelvin_sign \/ r = dotted_capital_i.
+Proof. exact rune_lower_ascii_image. Qed.
+Print Assumptions C16_to_lower_ascii_image.
+
+Theorem C16_to_lower_on_valid : forall l, valid_label l -> go_to_lower l = lower l.
+Proof. exact go_to_lower_valid. Qed.
+Print Assumptions C16_to_lower_on_valid.
+
+(** What validating AFTER lower-casing would accept: the labels valid as
+    sent, and labels that contain one of the two runes; nothing else (invalid
+    UTF-8 becomes U+FFFD, other letters stay outside ASCII). *)
+Theorem C16_lower_first_valid_inv : forall s,
+  valid_label (go_to_lower s) -> valid_label s \/ has_special s = true.
+Proof. exact lower_first_valid_inv. Qed.
+Print Assumptions C16_lower_first_valid_inv.
+
+Theorem C16_lower_first_exact : forall s,
+  has_special s = false -> (valid_label (go_to_lower s) <-> valid_label s).
+Proof. exact lower_first_exact. Qed.
+Print Assumptions C16_lower_first_exact.
+
+Theorem C16_lower_first_agrees : forall host cli strict,
+  (forall x, immediate_sub cli host x -> has_special x = false) ->
+  ok_id (from_server_name_lower_first host cli strict) = ok_id (from_server_name host cli strict).
+Proof. exact lower_first_agrees. Qed.
+Print Assumptions C16_lower_first_agrees.
+
+(** The order matters: "<U+212A>ate.<name>" fails in the code's order and is
+    the ClientID "kate" in the other one (server name and path alike). *)
+Theorem C16_lower_first_refuted :
+  immediate_sub ex_kelvin_cli ex_host kelvin_ate /\ ~ valid_label kelvin_ate /\
+  from_server_name ex_host ex_kelvin_cli false = CidErr (ESniLabel LBadRune) /\
+  client_id_of DoT ex_host false (Some ex_kelvin_cli) None = CidErr (ESniLabel LBadRune) /\
+  from_server_name_lower_first ex_host ex_kelvin_cli false = CidOk kate /\
+  from_doh_path (slash :: dns_query ++ slash :: kelvin_ate) = CidErr (EPathLabel LBadRune) /\
+  from_doh_path_lower_first (slash :: dns_query ++ slash :: kelvin_ate) = CidOk kate.
+Proof. exact lower_first_refuted. Qed.
+Print Assumptions C16_lower_first_refuted.
+
+(** * Round 5: the strict check across reconfigurations with different
+    certificates (Model/CertPrepare.v). *)
+
+(** After any sequence of Prepare calls on one Server, from any state: the
+    name list is the one of the certificate of the last call. *)
+Theorem C16_strict_names_follow_current_cert : forall st pre c,
+  serves_tls c -> tc_strict c = true ->
+  ts_dns_names (run_prepares false st (pre ++ [c])) = collect_names (tc_cert c).
+Proof. exact names_follow_current_cert. Qed.
+Print Assumptions C16_strict_names_follow_current_cert.
+
+Theorem C16_reconf_handshake_current_cert : forall st pre c sni v6,
+  serves_tls c ->
+  let st' := run_prepares false st (pre ++ [c]) in
+  ts_installed st' = true /\
+  on_get_certificate st' sni v6 = handshake_accepts (tc_strict c) (tc_cert c) sni v6.
+Proof. exact handshake_follows_current_cert. Qed.
+Print Assumptions C16_reconf_handshake_current_cert.
+
+Theorem C16_reconf_accepted_covered : forall st pre c sni v6,
+  serves_tls c -> tc_strict c = true ->
+  (on_get_certificate (run_prepares false st (pre ++ [c])) sni v6 = true <->
+   sni_wellformed sni v6 = true /\ cert_covers (tc_cert c) sni).
+Proof. exact accepted_covered_by_current_cert. Qed.
+Print Assumptions C16_reconf_accepted_covered.
+
+(** A name that only an earlier certificate covers is refused. *)
+Theorem C16_reconf_earlier_cert_name_rejected : forall st pre c sni v6,
+  serves_tls c -> tc_strict c = true -> ~ cert_covers (tc_cert c) sni ->
+  on_get_certificate (run_prepares false st (pre ++ [c])) sni v6 = false.
+Proof. exact earlier_cert_name_rejected. Qed.
+Print Assumptions C16_reconf_earlier_cert_name_rejected.
+
+Theorem C16_reconf_not_serving_not_installed : forall st pre c,
+  ~ serves_tls c -> ts_installed (run_prepares false st (pre ++ [c])) = false.
+Proof. exact not_serving_not_installed. Qed.
+Print Assumptions C16_reconf_not_serving_not_installed.
+
+(** s.dnsNames = append(s.dnsNames, cert.DNSNames...): the names of the
+    previous certificate still pass after the change. *)
+Theorem C16_strict_names_appending_refuted :
+  exists c1 c2 sni,
+    serves_tls c2 /\ tc_strict c2 = true /\ ~ cert_covers (tc_cert c2) sni /\
+    on_get_certificate (run_prepares true tls_state0 [c1; c2]) sni false = true.
+Proof. exact appending_refuted. Qed.
+Print Assumptions C16_strict_names_appending_refuted.
